@@ -17,6 +17,9 @@ def plans(quick):
          ("v-sim7", dict(depth=7, Sim=6), {"num": 25 if quick else 400, "depth": 8}),
          ("v-sim7-mv2", dict(depth=7, Sim=6, MinVotes=2, MaxObs=3, MinTrackLen=2), {"num": 25 if quick else 300, "depth": 8}),
          ("v-sim9-full-gallery", dict(depth=9, Sim=6, MinTrackLen=2, MaxObs=2, Slots={1}), {"num": 25 if quick else 300, "depth": 10}),
+         # positional fallback weighs with the DETECTION's confidence: a weak detection (below the IoU threshold after
+         # scaling) starts a new track whatever confidence the track's last detection had
+         ("v-lowconf", dict(depth=4, MaxDets=1, Slots={1}, Confs={900, 200}, Feats={1}, Quals={30, 90}), None),
          ("v-cosine", dict(depth=7, Sim=6, VisKind="cosine", VisThr=5), {"num": 20 if quick else 300, "depth": 8}),
          ("v-min-area", dict(depth=7, Sim=6, MinArea=3000), {"num": 20 if quick else 300, "depth": 8}),
          ("v-own", dict(depth=7, Sim=6, OwnUse=50, OwnCollect=50), {"num": 25 if quick else 300, "depth": 8}),
